@@ -29,6 +29,7 @@ type Exec struct {
 	pcTerms  []*Term
 	globals  map[*ssa.Global]*Obj
 	initDone map[*ssa.Package]bool
+	explicitDone map[*ssa.Function]bool
 	objCount int
 	opqCount int
 	blobCnt  int
@@ -40,6 +41,7 @@ type Exec struct {
 	hashes   []*hashEntry
 	inInit   int
 	lastPanic string
+	stackNames []string
 
 	nondets  map[string]*Term // harness-named symbolic inputs
 	ndOrder  []string
@@ -111,6 +113,7 @@ type Run struct {
 	stopped   bool
 	deadline  time.Time
 	smtLog    string
+	initLog   func(string)
 }
 
 func (ex *Exec) noteFunc(fn *ssa.Function) {
@@ -249,26 +252,10 @@ func (ex *Exec) global(g *ssa.Global) *Obj {
 	if o, ok := ex.globals[g]; ok {
 		return o
 	}
-	pkg := g.Pkg
-	if !ex.initDone[pkg] {
-		ex.initDone[pkg] = true
-		// allocate all globals of the package first
-		for _, m := range pkg.Members {
-			if gg, ok := m.(*ssa.Global); ok {
-				if _, ok := ex.globals[gg]; !ok {
-					et := gg.Type().(*types.Pointer).Elem()
-					ex.globals[gg] = ex.newObj(ex.zeroTolerant(et), et)
-				}
-			}
-		}
-		ex.runInit(pkg)
-	}
-	if o, ok := ex.globals[g]; ok {
-		return o
-	}
 	et := g.Type().(*types.Pointer).Elem()
 	o := ex.newObj(ex.zeroTolerant(et), et)
 	ex.globals[g] = o
+	ex.initGlobal(g)
 	return o
 }
 
@@ -285,72 +272,118 @@ func (ex *Exec) zeroTolerant(t types.Type) (v Value) {
 	return ex.zero(t)
 }
 
-// runInit executes the package initialiser tolerantly: each instruction that the engine cannot
-// execute leaves an Opaque value behind instead of failing the path.
-func (ex *Exec) runInit(pkg *ssa.Package) {
+func rootGlobal(v ssa.Value) *ssa.Global {
+	for {
+		switch x := v.(type) {
+		case *ssa.Global:
+			return x
+		case *ssa.FieldAddr:
+			v = x.X
+		case *ssa.IndexAddr:
+			v = x.X
+		default:
+			return nil
+		}
+	}
+}
+
+func isInitBoundary(ins ssa.Instruction, g *ssa.Global) bool {
+	switch i := ins.(type) {
+	case *ssa.Store:
+		if rg := rootGlobal(i.Addr); rg != nil && rg != g {
+			return true
+		}
+	case *ssa.Call:
+		if callee := i.Common().StaticCallee(); callee != nil && strings.HasPrefix(callee.Name(), "init") && callee.Signature.Recv() == nil && callee.Signature.Params().Len() == 0 {
+			return true
+		}
+	case *ssa.If, *ssa.Jump, *ssa.Return:
+		return true
+	}
+	return false
+}
+
+// initGlobal runs only the slice of the package initialiser that defines g: the straight-line
+// segment of init ending in the store(s) to g, or the explicit init() functions that assign it.
+// Instructions the engine cannot execute leave an Opaque value behind (tolerant, all-concrete).
+func (ex *Exec) initGlobal(g *ssa.Global) {
+	pkg := g.Pkg
 	init := pkg.Func("init")
-	if init == nil || init.Blocks == nil {
+	if init == nil {
 		return
+	}
+	if init.Blocks == nil {
+		pkg.Build()
 	}
 	ex.inInit++
 	savedSteps := ex.steps
 	defer func() { ex.inInit--; ex.steps = savedSteps }()
-	fr := &Frame{fn: init, env: map[ssa.Value]Value{}}
-	b := init.Blocks[0]
-	var prev *ssa.BasicBlock
-	visited := 0
-	for b != nil {
-		visited++
-		if visited > 10000 {
+	for _, b := range init.Blocks {
+		for idx, ins := range b.Instrs {
+			st, ok := ins.(*ssa.Store)
+			if !ok || rootGlobal(st.Addr) != g {
+				continue
+			}
+			// segment start
+			lo := idx
+			for lo > 0 && !isInitBoundary(b.Instrs[lo-1], g) {
+				lo--
+			}
+			hi := idx
+			for hi+1 < len(b.Instrs) && !isInitBoundary(b.Instrs[hi+1], g) {
+				if _, isCall := b.Instrs[hi+1].(*ssa.Call); isCall {
+					break
+				}
+				hi++
+			}
+			// trim: stop after the last store to g in [idx..hi]
+			last := idx
+			for k := idx; k <= hi; k++ {
+				if s2, ok := b.Instrs[k].(*ssa.Store); ok && rootGlobal(s2.Addr) == g {
+					last = k
+				}
+			}
+			fr := &Frame{fn: init, env: map[ssa.Value]Value{}}
+			for k := lo; k <= last; k++ {
+				in := b.Instrs[k]
+				if v, ok := in.(ssa.Value); ok {
+					ex.tolerantly(fr, v, func() { ex.step(fr, in) })
+				} else {
+					ex.tolerantly(fr, nil, func() { ex.step(fr, in) })
+				}
+			}
 			return
 		}
-		var next *ssa.BasicBlock
+	}
+	// assigned by explicit init() functions
+	for _, b := range init.Blocks {
 		for _, ins := range b.Instrs {
-			switch i := ins.(type) {
-			case *ssa.Jump:
-				next = b.Succs[0]
-			case *ssa.If:
-				// init guard: always take the "not yet initialised" side
-				cv, ok := fr.env[i.Cond]
-				if bv, isb := cv.(BoolV); ok && isb && bv.T.IsConst() {
-					if bv.T.B {
-						next = b.Succs[0]
-					} else {
-						next = b.Succs[1]
-					}
-				} else {
-					next = b.Succs[1]
-				}
-			case *ssa.Return:
-				return
-			case *ssa.Phi:
-				for k, p := range b.Preds {
-					if p == prev {
-						ex.tolerantly(fr, i, func() { fr.env[i] = ex.eval(fr, i.Edges[k]) })
+			c, ok := ins.(*ssa.Call)
+			if !ok {
+				continue
+			}
+			callee := c.Common().StaticCallee()
+			if callee == nil || callee.Pkg != pkg || !strings.HasPrefix(callee.Name(), "init#") {
+				continue
+			}
+			if ex.explicitDone[callee] {
+				continue
+			}
+			stores := false
+			for _, cb := range callee.Blocks {
+				for _, ci := range cb.Instrs {
+					if s2, ok := ci.(*ssa.Store); ok && rootGlobal(s2.Addr) == g {
+						stores = true
 					}
 				}
-			case *ssa.Call:
-				// skip initialisers of other packages (run lazily when their globals are touched)
-				if callee := i.Common().StaticCallee(); callee != nil && callee.Name() == "init" && callee.Pkg != pkg && callee.Signature.Recv() == nil {
-					fr.env[i] = nil
-					continue
-				}
-				ex.tolerantly(fr, i, func() { ex.step(fr, ins) })
-			case *ssa.Panic:
-				return
-			default:
-				if v, ok := ins.(ssa.Value); ok {
-					ex.tolerantly(fr, v, func() { ex.step(fr, ins) })
-				} else {
-					ex.tolerantly(fr, nil, func() { ex.step(fr, ins) })
-				}
 			}
-			if next != nil {
-				break
+			if !stores {
+				continue
 			}
+			ex.explicitDone[callee] = true
+			fr := &Frame{fn: init, env: map[ssa.Value]Value{}}
+			ex.tolerantly(fr, nil, func() { ex.call(callee, nil, 0, nil, nil) })
 		}
-		prev = b
-		b = next
 	}
 }
 
@@ -359,6 +392,9 @@ func (ex *Exec) tolerantly(fr *Frame, v ssa.Value, f func()) {
 		if r := recover(); r != nil {
 			switch e := r.(type) {
 			case *EngineErr:
+				if ex.run.verbose && ex.run.initLog != nil {
+					ex.run.initLog(fr.fn.String() + ": " + e.Msg + " @ " + strings.Join(e.Stack, " < "))
+				}
 				if v != nil {
 					fr.env[v] = Opaque{Desc: "init: " + e.Msg}
 				}
@@ -460,7 +496,7 @@ func (r *Run) worker(id int) {
 func (r *Run) runPath(prefix []dec, tf *TF, solver *Solver) (res *PathResult, alts [][]dec) {
 	solver.Reset()
 	ex := &Exec{run: r, prog: r.prog, tf: tf, solver: solver, prefix: prefix,
-		globals: map[*ssa.Global]*Obj{}, initDone: map[*ssa.Package]bool{},
+		globals: map[*ssa.Global]*Obj{}, initDone: map[*ssa.Package]bool{}, explicitDone: map[*ssa.Function]bool{},
 		maxSteps: r.maxSteps, unwind: r.unwind, ranks: map[string]*rankEntry{},
 		nondets: map[string]*Term{}, choices: map[string]int{}, env: map[string]Value{}}
 	tf.vars = map[string]*Term{}
@@ -475,8 +511,11 @@ func (r *Run) runPath(prefix []dec, tf *TF, solver *Solver) (res *PathResult, al
 			switch e := rec.(type) {
 			case *EngineErr:
 				res.Status, res.Detail = "error", e.Msg
+				if len(e.Stack) > 0 {
+					res.Detail += " @ " + strings.Join(e.Stack, " < ")
+				}
 			case *GoPanic:
-				res.Status, res.Detail = "panic", e.Msg
+				res.Status, res.Detail = "panic", e.Msg+" @ "+e.Stack
 			case *PathEnd:
 				res.Status, res.Detail = "assumed", e.Reason
 			default:
